@@ -120,10 +120,13 @@ func (c *fRegistryImpl) dispatch(opid uint64, frame []byte) error {
 	if !ok {
 		logger().Warn("frugal: unregistered context")
 		c.mu.RUnlock()
+		verifHook("dispatch.unknown", opid)
 		return nil
 	}
 	c.mu.RUnlock()
+	verifHook("send.begin", opid)
 
 	resultC <- frame
+	verifHook("send.end", opid)
 	return nil
 }
